@@ -29,7 +29,10 @@ type gen struct {
 	feat     map[string]bool
 	maxInst  int
 	prev     []Macro // earlier requests (without their schedules)
+	cur      *Macro  // the request whose schedule is being generated
 }
+
+var pipeUsers = []string{"alice", "bob"}
 
 var (
 	clusterNames = []string{"a", "b", "c"}
@@ -221,9 +224,27 @@ func (g *gen) mid(depth int, enclosing map[string]bool, own string) []Macro {
 		case x < 62 && g.short:
 			g.feat["sleep"] = true
 			ops = append(ops, g.ev(Ev{E: "tick", Dt: ShortTicks + 1}))
+		case x < 80 && depth < 2 && g.cur != nil:
+			// an overlapping request with the SAME credentials (token / user and attributes / whole chain) addressed to
+			// another host — usually another cluster, which answers differently
+			other := g.host()
+			for tries := 0; tries < 10 && gatewaynet.HostWithoutPort(other) == gatewaynet.HostWithoutPort(own); tries++ {
+				other = g.host()
+			}
+			n := Macro{Op: g.cur.Op, Host: rig.Hex(other), Tok: g.cur.Tok, Attrs: g.cur.Attrs, Target: g.cur.Target}
+			if (n.Op == "tok" || n.Op == "pipe") && enclosing[flightKey(other, rig.UnHex(n.Tok))] {
+				break
+			}
+			g.feat["overlap-same-credentials"] = true
+			ops = append(ops, n)
+			if len(g.stopped) > 0 {
+				ops = append(ops, g.ev(Ev{E: "dropStopped"}))
+			}
 		case depth < 2:
 			g.feat["nested"] = true
+			saved := g.cur
 			ops = append(ops, g.request(depth+1, enclosing)...)
+			g.cur = saved
 		}
 	}
 	return ops
@@ -259,6 +280,7 @@ func (g *gen) request(depth int, enclosing map[string]bool) []Macro {
 			return nil // would join the enclosing request's single flight and wait for itself
 		}
 		m = Macro{Op: "tok", Host: rig.Hex(host), Tok: rig.Hex(tok)}
+		g.cur = &Macro{Op: "tok", Tok: m.Tok}
 		if g.r.Intn(100) < 16 {
 			enc := map[string]bool{flightKey(host, tok): true}
 			for k := range enclosing {
@@ -275,6 +297,7 @@ func (g *gen) request(depth int, enclosing map[string]bool) []Macro {
 	} else {
 		host := g.host()
 		m = Macro{Op: "sar", Host: rig.Hex(host), Attrs: g.r.Intn(len(g.cs.Attrs))}
+		g.cur = &Macro{Op: "sar", Attrs: m.Attrs}
 		if g.r.Intn(100) < 14 {
 			g.feat["mid"] = true
 			m.Mid = g.mid(depth, enclosing, host)
@@ -389,8 +412,10 @@ func (g *gen) pipe() []Macro {
 	host, tok := g.host(), g.pick(g.toks)
 	m := Macro{Op: "pipe", Host: rig.Hex(host), Tok: rig.Hex(tok), Attrs: -1}
 	if g.r.Intn(100) < 65 {
-		m.Attrs = g.r.Intn(len(g.cs.Attrs))
+		t := rig.Hex("admin")
+		m.Target = &t
 	}
+	g.cur = &Macro{Op: "pipe", Tok: m.Tok, Attrs: -1, Target: m.Target}
 	enc := map[string]bool{flightKey(host, tok): true}
 	between := func() []Macro {
 		live := g.liveInsts()
@@ -479,6 +504,12 @@ func attrsUniverse(r *rand.Rand) []Attrs {
 	for _, i := range perm[:n] {
 		out = append(out, all[i])
 	}
+	// the checks WithNoLoggingImpersonation makes for "Impersonate-User: admin" sent by the users the token oracles know
+	// (kind User: group and version empty; the token webhook fills in the name only)
+	for _, u := range pipeUsers {
+		out = append(out, Attrs{User: &User{Name: h(u), UID: h(""), Groups: []string{}, Extra: []ExtraKV{}}, Verb: h("impersonate"),
+			Resource: h("users"), Name: h("admin"), ResourceRequest: true})
+	}
 	if r.Intn(4) == 0 { // boundary of shouldCache: 9999 bytes is cached, 10000 is not
 		out = append(out, Attrs{User: bob, Verb: h("get"), Ns: h(""), APIVersion: h("v1"), Resource: h("cm"), Name: h(strings.Repeat("m", 9999-3-2-2)), ResourceRequest: true})
 	}
@@ -548,6 +579,9 @@ func genCase(r *rand.Rand, profile string, tokRetries bool) (*Case, map[string]b
 				switch x := r.Intn(100); {
 				case x < 55:
 					a = TokAns{K: "ok", User: rig.Hex(fmt.Sprintf("%s-user%d@i%d", tok, j, inst))}
+					if r.Intn(100) < 60 { // a user the impersonation rules know (whole-chain requests get past authentication)
+						a.User = rig.Hex(pipeUsers[r.Intn(len(pipeUsers))])
+					}
 				case x < 80:
 					a = TokAns{K: "no"}
 				case x < 90:
